@@ -326,6 +326,22 @@ def spec_summary(spec):
 CONSUMER_MODES = ["MF_DT", "MF_TR", "QE_MF", "QE_DT", "QE_TR"]
 
 
+def add_cold_line(spec, rng):
+    """A separate line fed by a pressure-only grid: calculated hydraulically, but without any temperature source it is no part of
+    the thermal calculation (its pipes stand before every pump / consumer in the internal branch table)."""
+    k = int(rng.integers(2, 4))
+    for i in range(k + 1):
+        spec["junctions"].append({"name": "c%d" % i, "pn_bar": 4.0, "tfluid_k": float(rng.uniform(280, 300)), "height_m": 0.0, "in_service": True})
+    new = [{"kind": "pipe", "name": "cold_pipe%d" % i, "from_junction": "c%d" % i, "to_junction": "c%d" % (i + 1),
+            "length_km": float(rng.uniform(0.05, 0.3)), "inner_diameter_mm": float(rng.uniform(60, 150)), "k_mm": 0.1,
+            "sections": int(rng.integers(1, 3)), "u_w_per_m2k": float(rng.uniform(0, 5)), "in_service": True} for i in range(k)]
+    # created first: the rows of the cold line precede those of the loop
+    spec["elements"] = new + spec["elements"] + [
+        {"kind": "ext_grid", "name": "eg_cold", "junction": "c0", "p_bar": 4.0, "t_k": 285.0, "type": "p", "in_service": True},
+        {"kind": "sink", "name": "sink_cold", "junction": "c%d" % k, "mdot_kg_per_s": float(rng.uniform(0.2, 1.0)), "scaling": 1.0, "in_service": True}]
+    return spec
+
+
 def gen_heating(rng, n=None, source=None, modes=CONSUMER_MODES, chords=None, max_sections=4, u_max=2.0,
                 exchangers=True, negative_heat=False):
     """Flow/return tree pair closed by heat consumers (and flow-controlled heat exchangers), fed by a
